@@ -311,13 +311,56 @@ class KV(StandIn, list):
 
 
 class CurveT(StandIn):
+    """the spline of two quadratic pieces joined at a knot of multiplicity 3 (six control points).  Knot removal as the
+    spline library does it: the junction knot is removed once if the pieces meet, once more if their derivatives agree
+    there (for the parametrisation the knot gives), and a third time if their second derivatives agree too -- only then
+    is the union one quadratic (three control points)"""
+    degree = 2
+
     def __init__(self):
         self.ctrlpoints = ()
-        self.degree, self.npts = 2, 3
         self.cleaned = None
+        self.removed = None
+
+    @property
+    def npts(self):
+        return 3 if self.removed is None else 6 - self.removed
+
+    @property
+    def knotvector(self):
+        return KnotsT(self)
 
     def knot_clean(self, nodes):
         self.cleaned = nodes
+        pts = tuple(self.ctrlpoints)
+        if len(pts) != 6 or not nodes:
+            return
+        t = nodes[0]
+        p0, a, m, m2, b, p2 = pts
+
+        def same(u, v):
+            return abs(u.x - v.x) <= 1e-9 and abs(u.y - v.y) <= 1e-9
+        if not (0 < t < 1) or not same(m, m2):
+            self.removed = 0
+            return
+        d1a, d1b = Vec((m.x - a.x) / t, (m.y - a.y) / t), Vec((b.x - m.x) / (1 - t), (b.y - m.y) / (1 - t))
+        if not same(d1a, d1b):
+            self.removed = 1
+            return
+        d2a = Vec((p0.x - 2 * a.x + m.x) / t ** 2, (p0.y - 2 * a.y + m.y) / t ** 2)
+        d2b = Vec((m.x - 2 * b.x + p2.x) / (1 - t) ** 2, (m.y - 2 * b.y + p2.y) / (1 - t) ** 2)
+        self.removed = 3 if same(d2a, d2b) else 2
+        if self.removed == 3:
+            self.ctrlpoints = (p0, Vec(p0.x + (a.x - p0.x) / t, p0.y + (a.y - p0.y) / t), p2)
+
+
+class KnotsT(StandIn):
+    def __init__(self, curve):
+        self.curve = curve
+        self.degree, self.npts = curve.degree, curve.npts
+
+    def mult(self, node):
+        return 3 - (self.curve.removed or 0) if self.curve.cleaned and node in self.curve.cleaned else 0
 
 
 def lerp(a, b, t):
@@ -327,7 +370,7 @@ def lerp(a, b, t):
 def r15_3(ctx):
     out = Outcome("R15.3", "PlanarCurve.__or__ derives the re-parametrisation node from the tangents at the junction "
                            "(end tangent of the first piece, start tangent of the second): the two pieces of a curve "
-                           "split at t are united at node t", floor=3)
+                           "split at t are united at node t; segments that are not pieces of one curve are not united", floor=5)
     out.text = out.text
     fn = ctx.fn("curve.PlanarCurve.__or__")
     E0, E1, E2 = Vec(0, 0), Vec(3, 6), Vec(9, 0)
@@ -384,6 +427,45 @@ def r15_3(ctx):
             out.bad(fn.qname, f"the junction knot {t} is not the one removed", where=fn.where())
         else:
             out.ok(fn.qname, f"pieces of a split at t={t} united at node {t}", where=fn.where())
+    # two different parabolas that meet with parallel tangents (a smooth junction that is a vertex all the same), and a
+    # corner: neither pair is one quadratic, the union must be refused
+    worlds = [("two different parabolas meeting with parallel tangents", (Vec(0, 0), Vec(2, 2), Vec(4, 2)), (Vec(4, 2), Vec(7, 2), Vec(9, -3))),
+              ("two different parabolas meeting with parallel tangents of equal length", (Vec(0, 0), Vec(2, 2), Vec(4, 2)),
+               (Vec(4, 2), Vec(6, 2), Vec(8, 5))),
+              ("two parabolas meeting at a corner", (Vec(0, 0), Vec(2, 2), Vec(4, 2)), (Vec(4, 2), Vec(5, 4), Vec(8, 5)))]
+    for label, pa, pb in worlds:
+        qa = tuple(Vec(Fr(v.x), Fr(v.y)) for v in pa)
+        qb = (qa[-1],) + tuple(Vec(Fr(v.x), Fr(v.y)) for v in pb[1:])           # one junction point object
+        first = Obj("first", degree=2, ctrlpoints=qa)
+        second = Obj("second", degree=2, ctrlpoints=qb)
+        made = []
+
+        def hook2(rn, ev, call, name, recv, args, kwargs):
+            if name == "isinstance":
+                return True
+            if name == "bezier":
+                return KV(args[0])
+            if name == "Curve":
+                made.append(CurveT())
+                return made[-1]
+            if name == "__class__" or (isinstance(call.func, ast.Attribute) and call.func.attr == "__class__"):
+                return "UNITED"
+            return NotImplemented
+        try:
+            got = Runner(ctx, set(), hook2, asserts=True).call_fn(fn, [first, second])
+        except Undecided as ex:
+            out.undecided(fn.qname, f"{label}: not interpretable: {ex}", where=fn.where())
+            continue
+        except Raised as ex:
+            if ex.what.startswith("ValueError"):
+                out.ok(fn.qname, f"{label}: the union is refused (ValueError)", where=fn.where())
+            else:
+                out.bad(fn.qname, f"{label}: raises {ex.what}, required ValueError", where=fn.where())
+            continue
+        left = made[0].npts if made else "?"
+        out.bad(fn.qname, "two segments that are not pieces of one curve are united", where=fn.where(),
+                detail=f"{label}: returns {got!r}; the joined spline keeps {left} control points after the junction knot is "
+                       f"removed as often as the curve allows, one quadratic has 3")
     return out
 
 
